@@ -20,7 +20,9 @@ RULE = ("1-4 languages (BCP-47-shaped codes), 1-5 sorted non-overlapping cues pe
         "attribute, reads repeated under several hash seeds; (write) sets -> DFXP (force), "
         "legacy/single DFXP, SAMI, WebVTT(lang) parsed independently; (lang-opt) lang= on the "
         "SRT / WebVTT / MicroDVD / SCC readers. Non-trivial: >= 2 languages with at least one "
-        "pair of cues whose time order across languages differs from language order.")
+        "pair of cues whose time order across languages differs from language order. "
+        'The writer object may have written another multi-language set before; prefix-related '
+        'tags (en / en-US) may stand side by side on the write side. ')
 ASSUMPTIONS = [
     "at most one div maps to a given language (two divs of one language are not generated)",
     "language codes of one document are not prefixes of each other (SAMI selects with |=)",
